@@ -33,7 +33,12 @@ def main(prop, path):
     with open(hc, 'w') as fh:
         fh.write(p['harness_text'])
     vals = p.get('inputs', {})
-    r = replay.native_replay(wd, hc, vals, 'cmd')
+    extra = []
+    if meta.get('engine') == 'E5':
+        shutil.copy(os.path.join(H.HDIR, 'vp_libc_models.h'), wd)
+        extra = ['-lm', '-no-pie', '-Wl,--unresolved-symbols=ignore-all', '-DHAVE_CONFIG_H',
+                 '-DLOCALEDIR="/usr/local/share/locale"', '-I', tree.src] + ['-D' + d for d in str(meta.get('config', '')).split() if d]
+    r = replay.native_replay(wd, hc, vals, 'cmd', extra_cflags=extra)
     print('inputs: %s' % vals)
     print('native outcome: %s %s' % (r['outcome'], r.get('assertion', '')))
     print(r.get('detail', '')[-1500:])
